@@ -295,6 +295,21 @@ def c13_fresh_parses(first: int, second: int, last: int) -> bool:
     return ok
 
 
+def c13_same_alias(layout: int, kind: int) -> bool:
+    """
+    Independence across typedefs: two typedefs with the same name in namespaces whose innermost names are equal, naming
+    different templates — each instantiation is what it is without the other one (harness/c08_product.c08_same_alias).
+    pre: 0 <= layout < 4 and 0 <= kind <= 2
+    post: _
+    """
+    from harness import c08_product as P
+    ok = P.c08_same_alias(layout, kind)
+    if not ok:
+        global LAST_FAILURE
+        LAST_FAILURE = P.LAST_FAILURE
+    return ok
+
+
 def conds(tier):
     q = tier == "quick"
     t = (lambda x, y: x) if q else (lambda x, y: y)
@@ -306,6 +321,8 @@ def conds(tier):
                 bounds="all 15 ordered non-empty subsets, pybind and MATLAB classdefs"),
         xh.Cond(M, "c13_fresh_parses", t(240, 900), kind="shape-bounded", path_timeout=60, examples=["first=0, second=6, last=1", "first=2, second=0, last=1", "first=6, second=6, last=0", "first=3, second=4, last=5"],
                 bounds="6 module texts sharing qualified template names: %s earlier fresh parses before each text, compared with a pristine interpreter" % ("every sequence of 0-2" if not q else "0-2 (the second derived)")),
+        xh.Cond(M, "c13_same_alias", t(120, 400), kind="shape-bounded", examples=["layout=0, kind=0", "layout=1, kind=1", "layout=3, kind=2"],
+                bounds="4 pairs of namespace paths with equal innermost names x class / function / foreign template; together and alone"),
         xh.Cond(M, "c13_other_templates", t(120, 600), kind="shape-bounded", examples=["layout=1, order=0, where=0", "layout=2, order=1, where=1", "layout=0, order=0, where=2"],
                 bounds="5 namespace layouts of two same-named templates x 2 typedef orders x 3 places of the typedef block"),
         xh.Cond(M, "c13_alpha_rename", t(300, 1800), examples=["s='T'", "s='X9'", "s='V'", "s='ts'", "s='s'", "s='ar'", "s='e'"], bounds="all unused identifiers of length <= %d as the parameter name" % (2 if q else 3)),
